@@ -645,6 +645,13 @@ func (f *frame) invoke(st *State, com *ssa.CallCommon, instr ssa.Instruction, po
 			vc.heapSet(st, l.hv, "(store "+vc.heapGet(st, l.hv)+" "+l.ref+" "+nv+")")
 		}
 	}
+	if !ic.Pure {
+		// the callee may allocate
+		a := vc.fresh("alloc")
+		vc.declare(a, "Int")
+		vc.assume("(>= " + a + " " + st.alloc + ")")
+		st.alloc = a
+	}
 	res := f.freshResult(com.Signature(), "r_"+sanitize(com.Method.Name()))
 	f.assumeAllocatedVal(st, res)
 	bindResults(sc, ic, res)
